@@ -29,7 +29,7 @@ CHECKS = {
                  "canonical IR) list must equal the clean sequential reference. Non-trivial = pooled state reused and (>= 2 tasks or a non-identity map order); distinct = distinct "
                  "(programs, schedule, GOMAXPROCS). The fpstress job repeats the workload free-running under the race detector."),
         "jobs": [
-            {"engine": "fpsim", "bin": "diff", "test": "TestVerifC01", "cfg": {}, "cpu": 4, "weight": 12},
+            {"engine": "fpsim", "bin": "diff", "test": "TestVerifC01", "cfg": {}, "cpu": 4, "weight": 12, "vary": "universe"},
             {"engine": "fpsim", "bin": "diff", "test": "TestVerifC01", "cfg": {"universe": "1"}, "cpu": 4, "weight": 2},
             {"engine": "fpstress", "bin": "diff_race", "test": "TestVerifC01Stress", "cfg": {}, "race": True, "cpu": 8, "weight": 2},
         ],
@@ -47,8 +47,8 @@ CHECKS = {
                  "faults per call and unreadable directories during the walk. Non-trivial = fault-free run, or a run in which at least one fault fired; distinct = distinct "
                  "(tree, command, options, schedule, fired faults)."),
         "jobs": [
-            {"engine": "clisim-coverage", "bin": "cli", "test": "TestVerifC16", "cfg": {"faults": "off"}, "cpu": 4, "weight": 1},
-            {"engine": "clisim-coverage", "bin": "cli", "test": "TestVerifC16", "cfg": {"faults": "on"}, "cpu": 4, "weight": 2},
+            {"engine": "clisim-coverage", "bin": "cli", "test": "TestVerifC16", "cfg": {"faults": "off"}, "cpu": 4, "weight": 1, "thorough_cfg": {"corpus": "150"}},
+            {"engine": "clisim-coverage", "bin": "cli", "test": "TestVerifC16", "cfg": {"faults": "on"}, "cpu": 4, "weight": 2, "thorough_cfg": {"corpus": "150"}},
         ],
         "assumptions": ["a warning on stderr that names the path counts as 'reported'; the strict-mode clause has no such latitude",
                         "the converse (strict failing although everything was analysed) is not demanded"],
@@ -63,7 +63,7 @@ CHECKS = {
                  "map order, fresh pooled state) and tape-driven executions that vary the release order of the per-file workers, GOMAXPROCS in {1,2,4,16}, the iteration order of "
                  "every map range in repository code and the pooled canonicaliser handed to each acquisition; outputs must be byte-identical. Non-trivial = at least one scheduling "
                  "choice point or non-identity map order; distinct = distinct (input, command, options, schedule traces)."),
-        "jobs": [{"engine": "clisim", "bin": "cli", "test": "TestVerifC10", "cfg": {}, "cpu": 4}],
+        "jobs": [{"engine": "clisim", "bin": "cli", "test": "TestVerifC10", "cfg": {}, "cpu": 4, "thorough_cfg": {"corpus": "400"}}],
         "assumptions": ["map iteration and goroutines inside dependencies (x/tools, go/types, Pebble) are not steered, only sampled by repetition"],
         "real_vs_stub": {"code_under_test": "real (internal/cli, pkg/diff, pkg/analysis, pkg/detection, storage backends; instrumented R1,R2)",
                          "go_packages_loader": "real (go list child process, SSA builder)", "worker_scheduling": "simulated (synctest bubble + park points in the FileSystem seam and the pool)",
